@@ -68,7 +68,7 @@ def gen_gaps(rng, rate, window):
 
 
 def gen(rng, tier):
-    n = 8000 if tier == "quick" else 250000
+    n = 15000 if tier == "quick" else 250000
     # the DESIGN witness and the truncation witness first
     yield "3 3 3 2 1 1 xq 1 0,0,0,0,0,0,0,1431655766000000000,0,0,0,0,0,0,0,0"
     yield "4 4 4 1 0 1 na 0 0,0,0,0,0,1073741824000000000,0,0,0,0,0"
@@ -102,7 +102,7 @@ def gen_mixed(rng, tier):
     """Several streams through ONE slot (size 1: every other stream evicts), or one stream in a
     table of any size, with exempt traffic (TCP, NOTIFY, suppressed responses) in between.
     Gaps are whole seconds, so every pairwise distance is (evictions restart the bucket's clock)."""
-    n = 2000 if tier == "quick" else 60000
+    n = 5000 if tier == "quick" else 60000
     for _ in range(n):
         ne, nx, er, win = gen_params(rng)
         if ne * win > 40 or ne == 0 or nx == 0 or er == 0 or win == 0:
@@ -211,7 +211,7 @@ MANIFEST = {
                    "never panics, keeps every count <= rate x window <= u32::MAX, and takes exactly the send/limit decisions of an "
                    "unbounded token bucket (capacity rate x window, rate per whole second, fraction kept); slip 0 => dropped, "
                    "slip 1 => slipped, slipped => TC set and only OPT/TSIG counted. Model tied to the code through "
-                   "Server::handle_message on ~12k (quick) seeded histories with idle periods up to 2^61 s."),
+                   "Server::handle_message on ~20k (quick) seeded single-stream and mixed histories with idle periods up to 2^61 s."),
     "level_note": ("Trusted: Coq kernel, extraction, the hand-written model's correspondence (differentially tested), the aging hook. "
                    "The pre-fix `rate * secs as u32` arithmetic is refuted by c26_refines_refuted_prefix; the model follows the fix: commit."),
     "technique": "machine-checked proof in Coq (refinement to a token-bucket specification, all histories) + model/implementation correspondence check",
